@@ -34,6 +34,13 @@ def extract(ports, kernel, cp_kernel, dep_dict, ignore_unknown, tp_sum):
     model's domain (then only the oracle is applied)"""
     problems = []
     rows = []
+    if not kernel or not ports:
+        problems.append("empty")
+    for p in ports:
+        if not (isinstance(p, str) and p.isascii() and len(p) <= 6 and not re.search(r"[ |\-\n]", p)):
+            problems.append("port-name:%r" % (p,))
+    if tp_sum and len(tp_sum) != len(ports):
+        problems.append("sum-length")
     for ins in kernel:
         used = set()
         for u in ins.port_uops:
@@ -263,13 +270,10 @@ def oracle_table(orc, view, D, ignore_unknown):
             v = k["PortPressure"][p]
             orc.n_cells += 1
             if cell is None:
+                # a blank cell stands for zero (whether an unused zero is blank or "0.00" is layout, not content)
                 if float(v) != 0.0:
                     orc.fail("blank-cell-nonzero", {"line": ln, "port": p, "dict": v})
-                elif p in used:
-                    orc.fail("used-port-blank", {"line": ln, "port": p})
             else:
-                if float(v) == 0.0 and p not in used:
-                    orc.fail("unused-zero-shown", {"line": ln, "port": p, "shown": str(shown_value(cell))})
                 orc.shown(cell, v, "pressure-cell", {"line": ln, "port": p, "shown": str(shown_value(cell)),
                                                      "decimals": cell[2], "dict": v})
         if rv["cp"]:
@@ -454,8 +458,13 @@ def synth_case(rng, big=True):
                 uops.append([1, [p] if rng.random() < 0.6 else [p] + rng.sample(ports, min(2, len(ports)))])
         fl = []
         if kind >= 0.15:
-            if rng.random() < 0.12:
+            r = rng.random()
+            if r < 0.09:
                 fl += ["tp_unknown", "lt_unknown"]
+            elif r < 0.13:
+                fl.append("tp_unknown")
+            elif r < 0.17:
+                fl.append("lt_unknown")
             if rng.random() < 0.1:
                 fl.append("not_bound")
             if rng.random() < 0.08:
